@@ -112,6 +112,12 @@ func (o *CandidateNode) UnmarshalYAML(node *yaml.Node, anchorMap map[string]*Can
 		log.Debug("UnmarshalYAML - alias from yaml: %v", o.Tag)
 		o.Kind = AliasNode
 		o.copyFromYamlNode(node, anchorMap)
+		for ancestor := o.Parent; ancestor != nil; ancestor = ancestor.Parent {
+			if ancestor == o.Alias {
+				// e.g. `&a [*a]`: following the alias would never end
+				return fmt.Errorf("alias *%v refers to the node that contains it", node.Value)
+			}
+		}
 		return nil
 	case yaml.ScalarNode:
 		log.Debugf("UnmarshalYAML -  a scalar")
